@@ -88,6 +88,8 @@ type Runner struct {
 	Compared    int
 	failed      *Violation
 	watchdog    bool
+	PeerOpts    func(i int, o *sim.PeerOpts)
+	OnStep      func(si int, st Step)
 }
 
 func (r *Runner) logf(f string, a ...interface{}) {
@@ -224,7 +226,11 @@ func (r *Runner) GenSteps(rng *rand.Rand) []Step {
 // Setup creates peers and the database.
 func (r *Runner) Setup() error {
 	for i := 0; i < r.Cfg.NPeers; i++ {
-		p, err := r.E.W.AddPeer(sim.PeerOpts{OnDisk: r.Cfg.OnDisk})
+		po := sim.PeerOpts{OnDisk: r.Cfg.OnDisk}
+		if r.PeerOpts != nil {
+			r.PeerOpts(i, &po)
+		}
+		p, err := r.E.W.AddPeer(po)
 		if err != nil {
 			return err
 		}
@@ -280,6 +286,11 @@ func (r *Runner) write(i int, op Op, concurrent bool) error {
 		judgeDel = true
 	}
 	res, err := ApplyOp(bg, s, op)
+	injected := err != nil && strings.Contains(err.Error(), "sim: injected")
+	if injected {
+		r.logf("write p%d %s -> injected datastore failure (not acknowledged)", i, op)
+		return err
+	}
 	if judgeDel {
 		r.V.Count("doc_delete_presence_checks", 1)
 		if present && err != nil {
@@ -370,6 +381,9 @@ func (r *Runner) Exec(steps []Step) {
 	for si, st := range steps {
 		if r.failed != nil || r.watchdog {
 			return
+		}
+		if r.OnStep != nil {
+			r.OnStep(si, st)
 		}
 		switch st.K {
 		case "w":
